@@ -207,6 +207,81 @@ Proof.
   rewrite E in H; destruct H.
 Qed.
 
+(* ------------------------------------------------------------------ convert_component_types *)
+Lemma convert_none v : convert None v = Some v.
+Proof. destruct v; reflexivity. Qed.
+
+(* a list is never converted *)
+Lemma convert_list t l : convert t (VList l) = Some (VList l).
+Proof. destruct t as [[c|ch]|]; reflexivity. Qed.
+
+(* a float is never converted: whatever its value *)
+Lemma convert_float t r : convert t (VFlt r) = Some (VFlt r).
+Proof. destruct t as [[c|ch]|]; reflexivity. Qed.
+
+Lemma convert_node ch m :
+  convert (Some (CNode ch)) (VDict m)
+  = option_map VDict (omap (fun kv => option_map (pair (fst kv)) (convert (child ch (fst kv)) (snd kv))) m).
+Proof. reflexivity. Qed.
+
+Lemma omap_plookup (f : pk -> pv -> option pv) : forall m m' k w,
+  omap (fun kv => option_map (pair (fst kv)) (f (fst kv) (snd kv))) m = Some m' ->
+  plookup k m = Some w -> exists w', plookup k m' = Some w' /\ f k w = Some w'.
+Proof.
+  induction m as [|[k0 x0] r IH]; intros m' k w H L; [discriminate|].
+  cbn [omap fst snd] in H.
+  destruct (f k0 x0) as [y|] eqn:F; cbn in H; [|discriminate].
+  destruct (omap _ r) as [r'|] eqn:O; [|discriminate]. inversion H; subst m'. clear H.
+  cbn [plookup] in *. destruct (pk_eqb k k0) eqn:E.
+  - apply pk_eqb_eq in E; subst k0. inversion L; subst. exists y. split; [reflexivity | exact F].
+  - apply (IH r' k w eq_refl L).
+Qed.
+
+Lemma omap_keys (f : pk -> pv -> option pv) : forall m m',
+  omap (fun kv => option_map (pair (fst kv)) (f (fst kv) (snd kv))) m = Some m' -> map fst m' = map fst m.
+Proof.
+  induction m as [|[k0 x0] r IH]; intros m' H; cbn [omap fst snd] in H.
+  - inversion H; reflexivity.
+  - destruct (f k0 x0) as [y|]; cbn in H; [|discriminate].
+    destruct (omap _ r) as [r'|] eqn:O; [|discriminate]. inversion H; subst. cbn. f_equal. apply IH. reflexivity.
+Qed.
+
+(* what sits at a path of dictionary keys after a successful conversion is the conversion, by the entry of the table
+   for that path, of what sat there before *)
+Lemma convert_pget : forall p t v v' x,
+  convert t v = Some v' -> pget p v = Some x ->
+  exists x', pget p v' = Some x' /\ convert (tree_at p t) x = Some x'.
+Proof.
+  induction p as [|k p IH]; intros t v v' x C G; cbn [pget tree_at] in *.
+  - inversion G; subst. exists v'. split; [reflexivity | exact C].
+  - destruct v; try discriminate. destruct (plookup k m) as [w|] eqn:L; [|discriminate].
+    destruct t as [[c|ch]|].
+    + (* a callable in the table, a non-empty dictionary in the document: only `dict` lets it through *)
+      assert (E : v' = VDict m).
+      { cbn in C. destruct c, m; try discriminate; inversion C; reflexivity. }
+      subst v'. exists x. split; [cbn [pget]; rewrite L; exact G | apply convert_none].
+    + rewrite convert_node in C.
+      destruct (omap _ m) as [m'|] eqn:O; [|discriminate]. inversion C; subst v'. clear C.
+      destruct (omap_plookup (fun k0 x0 => convert (child ch k0) x0) m m' k w O L) as [w' [L' Cw]].
+      destruct (IH (child ch k) w w' x Cw G) as [x' [G' Cx]].
+      exists x'. split; [cbn [pget]; rewrite L'; exact G' | exact Cx].
+    + rewrite convert_none in C. inversion C; subst v'.
+      exists x. split; [cbn [pget]; rewrite L; exact G | apply convert_none].
+Qed.
+
+(* a dictionary keeps its keys *)
+Lemma convert_dict_keys t m v' : convert t (VDict m) = Some v' -> exists m', v' = VDict m' /\ map fst m' = map fst m.
+Proof.
+  intros C. destruct t as [[c|ch]|].
+  - exists m. split; [|reflexivity]. cbn in C. destruct c, m; try discriminate; inversion C; reflexivity.
+  - rewrite convert_node in C. destruct (omap _ m) as [m'|] eqn:O; [|discriminate]. inversion C; subst.
+    exists m'. split; [reflexivity|]. exact (omap_keys (fun k0 x0 => convert (child ch k0) x0) m m' O).
+  - cbn in C. inversion C. exists m. split; reflexivity.
+Qed.
+
+Lemma in_keys_entry {A B} (k : A) (m : list (A * B)) : In k (map fst m) -> exists x, In (k, x) m.
+Proof. intros I. apply in_map_iff in I as [[k' x] [E I]]. cbn in E; subst. exists x; exact I. Qed.
+
 (* ------------------------------------------------------------------ graphs *)
 Section GraphProofs.
   Variable K : Type.
@@ -352,7 +427,7 @@ Section AcceptProofs.
     (forall c r, In c (w_comps w) -> In r (c_refs c) -> exists c', In c' (w_comps w) /\ c_id c' = r) /\
     (forall u, ~ clos_trans cid (wedge w) u u) /\
     (forall c, In c (w_comps w) -> vars_resolvable w c) /\
-    (forall c, In c (w_comps w) -> hard_errs cs (c_doc c) "" = []).
+    (forall c, In c (w_comps w) -> doc_hard_errs cs (c_doc c) = []).
   Proof.
     unfold accept. intros H.
     apply andb_prop in H as [H _]. apply andb_prop in H as [H _]. apply andb_prop in H as [H Hv]. apply andb_prop in H as [H Hc].
@@ -373,7 +448,7 @@ Section AcceptProofs.
       + intros x C. apply (acyclic_b_sound string String.eqb string_eqb_eq' _ A x).
         eapply clos_trans_mono; [|exact C]. apply var_edge_graph; assumption.
     - intros c Ic. rewrite forallb_forall in Hs. specialize (Hs _ Ic). unfold schema_ok in Hs.
-      destruct (hard_errs cs (c_doc c) ""); [reflexivity | discriminate].
+      destruct (doc_hard_errs cs (c_doc c)); [reflexivity | discriminate].
   Qed.
 
   (* ---------------------------------------------------------------- list surgery *)
@@ -393,13 +468,24 @@ Section AcceptProofs.
   Qed.
 
   Lemma accept_schema_false w c :
-    In c (w_comps w) -> hard_errs cs (c_doc c) "" <> [] -> accept cs w = false.
+    In c (w_comps w) -> doc_hard_errs cs (c_doc c) <> [] -> accept cs w = false.
   Proof.
     intros Ic Hh. destruct (accept cs w) eqn:A; [|reflexivity].
     destruct (accept_sound w A) as [_ [_ [_ [_ S]]]]. specialize (S _ Ic). contradiction.
   Qed.
 
-  (* UnknownKey / WrongType: the mutated document of component i has a hard schema error *)
+  (* the conversion raises, or the converted document has a hard schema error *)
+  Lemma doc_hard_in d :
+    (forall d', convert (Some expected_types) d = Some d' ->
+                exists e, In e (check cs d' "") /\ is_hard e = true) ->
+    doc_hard_errs cs d <> [].
+  Proof.
+    intros H. unfold doc_hard_errs. destruct (convert (Some expected_types) d) as [d'|]; [|discriminate].
+    destruct (H d' eq_refl) as [e [I Hh]]. eapply hard_in; eassumption.
+  Qed.
+
+  (* UnknownKey / WrongType: the mutated document of component i has a hard schema error (after the conversion of
+     convert_component_types, which keeps the keys of every dictionary and never touches a list) *)
   Lemma complete_unknown_key w i c p k x s' rules m :
     nth_error (w_comps w) i = Some c ->
     sub_at p cs = Some s' -> dict_rules s' = Some rules -> pget p (c_doc c) = Some (VDict m) ->
@@ -409,9 +495,14 @@ Section AcceptProofs.
     intros Hn Hs D Hg F. cbn [mutate].
     apply accept_schema_false with (c := set_doc (pput p k x) c).
     - cbn. apply upd_nth_In; assumption.
-    - cbn. eapply hard_in.
-      + eapply schema_unknown_key; [exact Hs | exact D | apply pget_pput_dict; exact Hg | apply In_pset | exact F].
-      + reflexivity.
+    - cbn. apply doc_hard_in. intros d' C.
+      destruct (convert_pget p _ _ d' _ C (pget_pput_dict p k x _ m Hg)) as [y [G Cy]].
+      destruct (convert_dict_keys _ _ _ Cy) as [m' [-> K]].
+      assert (Ik : In k (map fst m')).
+      { rewrite K. apply in_map_iff. exists (k, x). split; [reflexivity | apply In_pset]. }
+      destruct (in_keys_entry k m' Ik) as [x' Ix].
+      exists (EKeyUnknown (key_label (path_label "" p) k)). split; [|reflexivity].
+      eapply schema_unknown_key; [exact Hs | exact D | exact G | exact Ix | exact F].
   Qed.
 
   Lemma complete_wrong_type w i c p k l s' m :
@@ -422,9 +513,29 @@ Section AcceptProofs.
     intros Hn Hs N Hg. cbn [mutate].
     apply accept_schema_false with (c := set_doc (pput p k (VList l)) c).
     - cbn. apply upd_nth_In; assumption.
-    - cbn. eapply hard_in.
-      + eapply schema_wrong_type; [exact Hs | exact N | eapply pget_pput_leaf; exact Hg].
-      + reflexivity.
+    - cbn. apply doc_hard_in. intros d' C.
+      destruct (convert_pget (p ++ [k]) _ _ d' _ C (pget_pput_leaf p k (VList l) _ m Hg)) as [y [G Cy]].
+      rewrite convert_list in Cy. inversion Cy; subst y.
+      exists (EValueInvalid (path_label "" (p ++ [k]))). split; [|reflexivity].
+      eapply schema_wrong_type; [exact Hs | exact N | exact G].
+  Qed.
+
+  (* WrongType, any value: what the value is converted to (if the conversion does not raise) has a hard schema error
+     at that position *)
+  Lemma complete_wrong_scalar w i c p k x m :
+    nth_error (w_comps w) i = Some c -> pget p (c_doc c) = Some (VDict m) ->
+    wrong_rejected cs (p ++ [k]) x = true ->
+    accept cs (mutate (WrongType i p k x) w) = false.
+  Proof.
+    intros Hn Hg R. cbn [mutate].
+    apply accept_schema_false with (c := set_doc (pput p k x) c).
+    - cbn. apply upd_nth_In; assumption.
+    - cbn. apply doc_hard_in. intros d' C.
+      destruct (convert_pget (p ++ [k]) _ _ d' _ C (pget_pput_leaf p k x _ m Hg)) as [y [G Cy]].
+      unfold wrong_rejected, conv_at in R. rewrite Cy in R.
+      destruct (sub_at (p ++ [k]) cs) as [s'|] eqn:Hs; [|discriminate].
+      apply existsb_exists in R as [e [Ie He]].
+      exists e. split; [|exact He]. eapply lift_errors; [exact Hs | exact G | exact Ie].
   Qed.
 
   Lemma accept_uniq w : accept cs w = true -> uniq cid_eqb (ids w) = true.
@@ -782,9 +893,13 @@ Section Complete.
         exists c s' rules m, nth_error (w_comps w) i = Some c /\ sub_at p cs = Some s' /\
                              dict_rules s' = Some rules /\ pget p (c_doc c) = Some (VDict m) /\
                              find_rule rules k = None
-    | WrongType i p k x =>          (* a list where the schema of option p.k admits no list *)
-        exists c s' m l, x = VList l /\ nth_error (w_comps w) i = Some c /\ sub_at (p ++ [k]) cs = Some s' /\
-                         no_list s' = true /\ pget p (c_doc c) = Some (VDict m)
+    | WrongType i p k x =>          (* a list where the schema of option p.k admits no list, or any value whose
+                                       conversion by convert_component_types raises or yields something for which
+                                       the schema of option p.k reports a hard error (wrong_rejected) *)
+        (exists c s' m l, x = VList l /\ nth_error (w_comps w) i = Some c /\ sub_at (p ++ [k]) cs = Some s' /\
+                          no_list s' = true /\ pget p (c_doc c) = Some (VDict m)) \/
+        (exists c m, nth_error (w_comps w) i = Some c /\ pget p (c_doc c) = Some (VDict m) /\
+                     wrong_rejected cs (p ++ [k]) x = true)
     | RemoveVar n =>                (* some component sees the global n and mentions it *)
         exists c, In c (w_comps w) /\ ~ In n (map fst (c_vars c)) /\
                   (In n (c_uses c) \/ exists v rs, In (v, rs) (env_of (mutate (RemoveVar n) w) c) /\ In n rs)
@@ -808,7 +923,9 @@ Section Complete.
     - destruct H as [c [Hi Hp]]. eapply complete_back_edge; eassumption.
     - destruct H as [N [ci [cj [Hi Hj]]]]. eapply complete_dup_name; eassumption.
     - destruct H as [c [s' [rules [m [Hi [Hs [D [Hg F]]]]]]]]. eapply complete_unknown_key; eassumption.
-    - destruct H as [c [s' [m [l [-> [Hi [Hs [N Hg]]]]]]]]. eapply complete_wrong_type; eassumption.
+    - destruct H as [[c [s' [m [l [-> [Hi [Hs [N Hg]]]]]]]] | [c [m [Hi [Hg R]]]]].
+      + eapply complete_wrong_type; eassumption.
+      + eapply complete_wrong_scalar; eassumption.
     - destruct H as [c [Ic [Nl Hu]]]. eapply complete_remove_var; eassumption.
     - destruct scope as [i|].
       + destruct H as [c [rs [Hi [Ia Hp]]]]. eapply complete_cyclic_local; eassumption.
